@@ -194,3 +194,59 @@ func ZZ_C04_rotation() {
 		run(2, 2)
 	}
 }
+
+// ZZ_C04_aged_reuse: generations of one grant age differently — a symbolic clock advance before a
+// rotation and another before a free presentation (any token ever handed out, any presenter): a used
+// token replayed after its own expiry while a later generation is still inside its renewed lifetime,
+// a live token presented around its expiry, a rotation of an almost expired token.
+func ZZ_C04_aged_reuse() {
+	s := &st{w: world.NewX(world.XOptions{Hybrid: true}), l: &world.Ledger{}, client: [2]string{"c1", "c2"}}
+	s.w.Store.Clients["C1"] = &fosite.DefaultClient{ID: "C1", Public: true, GrantTypes: []string{"authorization_code", "refresh_token"},
+		RedirectURIs: []string{"https://cx.example/cb"}, ResponseTypes: []string{"code"}, Scopes: []string{"offline", "photos"}}
+	s.start(0, zz.Choice("origin", 2))
+	rounds := 1
+	if zz.Thorough() {
+		rounds = 2
+	}
+	for i := 0; i < rounds; i++ {
+		zz.Advance(time.Duration(zz.Int("advance", 0, int64(45*24*time.Hour))))
+		s.refresh(s.latestRefresh(0).Val, "c1")
+		s.sweep("after aged rotation")
+	}
+	zz.Advance(time.Duration(zz.Int("advance", 0, int64(45*24*time.Hour))))
+	val := s.pickToken()
+	c := []string{"c1", "C1"}[zz.Choice("presenter", 2)]
+	s.refresh(val, c)
+	s.sweep("after aged presentation")
+	zz.Cover("aged:later-generation-outlives-the-replayed-one", len(s.l.Toks) >= 4)
+}
+
+// ZZ_C04_rotation_jwt: the same specification with JWT access tokens (oauth2.DefaultJWTStrategy) signed by
+// a DETERMINISTIC model signer (equal claims give the very same token string, as RS256 and HS256 do): the
+// clock is frozen unless a free operation moves it, so every rotation happens in the second of the previous
+// issuance — what keeps generations apart is only what the library puts into the claims.
+func ZZ_C04_rotation_jwt() {
+	s := &st{w: world.NewX(world.XOptions{JWTAccess: true, DeterministicJWT: true}), l: &world.Ledger{}, client: [2]string{"c1", "c2"}}
+	s.w.Store.Clients["C1"] = &fosite.DefaultClient{ID: "C1", Public: true, GrantTypes: []string{"authorization_code", "refresh_token"},
+		RedirectURIs: []string{"https://cx.example/cb"}, ResponseTypes: []string{"code"}, Scopes: []string{"offline", "photos"}}
+	for g := 0; g < 2; g++ {
+		code, err := s.w.AuthorizeCodeSession(s.client[g], []string{"offline", "photos"}, nil, world.NewJWTSession("peter"))
+		zz.Assume(err == nil)
+		resp, err := s.w.Redeem(s.client[g], code)
+		zz.Assume(err == nil && world.RefreshTokenOf(resp) != "")
+		zz.Assert(s.l.Find(resp.GetAccessToken()) == nil, "every grant gets its own access token")
+		s.addPair(g, resp)
+	}
+	for i, n := 0, 1+zz.Choice("prefix", 2); i < n; i++ {
+		s.refresh(s.latestRefresh(0).Val, "c1")
+		s.sweep("after scripted rotation")
+	}
+	freeOps := 1
+	if zz.Thorough() {
+		freeOps = 2
+	}
+	for k := 0; k < freeOps; k++ {
+		s.freeOp()
+		s.sweep("after free op")
+	}
+}
